@@ -195,6 +195,17 @@ def gen_case(prop, seed, p_fault=0.6):
         fault = gen_fault(r, seed, 0.7)
         if fault is not None and r.random() < 0.6:
             fault["kinds"] = sorted(set(fault["kinds"]) | {r.choice(("edge0", "edge1", "lattice", "half"))})
+    elif prop == "C18" and r.random() < 0.12:
+        # LHS on boxes of unequal side lengths (clause iv: proposals cover the whole box)
+        if r.random() < 0.3:
+            dom = GG.gen_iv(r, "x")
+        else:
+            w, h = r.choice((0.5, 1.0, 3.0)), r.choice((0.5, 1.0, 3.0))
+            ox, oy = GG.q(r.uniform(-3, 1)), GG.q(r.uniform(-3, 1))
+            dom = {"k": "par", "var": "x", "o": [ox, oy], "c1": [GG.q(ox + w), oy], "c2": [ox, GG.q(oy + h)]}
+        pspace, prows = [], []
+        entry = {"kind": "sampler", "cls": "LHS", "n": r.choice((1, 2, 5, 20, 100))}
+        fault = None
     elif prop == "C10":
         dom, pspace = gen_domain(r, rng, max_depth=2)
         pspace, prows = gen_prows(r, pspace, allow_unused=False)
